@@ -1,7 +1,7 @@
 """C10 — fit() writes one faithful record per eligible source and reads back unchanged.
 
 Trace checking: probes at the boundaries of one fit() run only *record* events
-(line parsed -> fitted -> selected -> written, plus the file-effect trace); an offline
+(records handed to FitInfoFile.write, plus the file-effect trace); an offline
 checker then compares the trace and the file with an independent run of the object
 interface.  Post-processing functions are then driven with a file / one object / a list,
 with canonical snapshots of the objects before and after.
@@ -26,25 +26,10 @@ def install(ctx):
     from sedfitter.fit import Fitter
     from sedfitter.fit_info import FitInfo, FitInfoFile
 
-    def from_ascii_post(cls, line, result):
-        TRACE.append(('parsed', result.name, int(result.n_data), probe.canon_source(result)))
-        return True
-
-    def fit_post(self, source, result):
-        TRACE.append(('fitted', source.name, probe.canon_info(result)))
-        return True
-
-    def keep_post(self, select_format, result):
-        TRACE.append(('kept', self.source.name if self.source is not None else None, tuple(select_format), len(self.chi2)))
-        return True
-
     def write_pre(self, info):
         TRACE.append(('write', info.source.name, probe.canon_info(info)))
         return True
 
-    probe.attach(Source, 'from_ascii', ensure=from_ascii_post)
-    probe.attach(Fitter, 'fit', ensure=fit_post)
-    probe.attach(FitInfo, 'keep', ensure=keep_post)
     probe.attach(FitInfoFile, 'write', require=write_pre)
 
 
@@ -272,7 +257,6 @@ def run(ctx):
         trace = list(TRACE)
         ctx.event('trace:fit-run')
         # ---- offline trace checker ---------------------------------------------------
-        parsed = [e for e in trace if e[0] == 'parsed']
         written = [e for e in trace if e[0] == 'write']
         want_names = [snames[i] for i in eligible]
         if not written:
@@ -290,14 +274,22 @@ def run(ctx):
             ctx.violation('fitter-raised', 'Fitter() raised: %r' % (exc,), wit0)
             ctx.rmdir(d)
             continue
-        expect = []
-        for i in eligible:
-            s = Source.from_ascii(lines[i])
-            info = fitter.fit(s)
-            if not oc:
-                info.model_fluxes = None
-            info.keep(sel)
-            expect.append(info)
+        def through_objects(ft_):
+            out_ = []
+            for i in eligible:
+                s = Source.from_ascii(lines[i])
+                info = ft_.fit(s)
+                if not oc:
+                    info.model_fluxes = None
+                info.keep(sel)
+                out_.append(info)
+            return out_
+        expect = through_objects(fitter)
+        # "what the object interface returns": with either setting of the memory-map switch (which one fit() uses is its choice)
+        try:
+            expect_alt = through_objects(Fitter(**dict(kw, filter_names=filt, use_memmap=False)))
+        except Exception:
+            expect_alt = expect
         try:
             fin = FitInfoFile(out, 'r')
             recs = list(fin)
@@ -312,6 +304,9 @@ def run(ctx):
         for ir_, (r, e) in enumerate(zip(recs, expect)):
             ctx.event('record:compared')
             d1 = probe.same_canon(probe.canon_info(e), probe.canon_info(r))
+            if d1 and ir_ < len(expect_alt) and not probe.same_canon(probe.canon_info(expect_alt[ir_]), probe.canon_info(r)):
+                d1 = []
+                ctx.event('record:equals-object-interface-without-memmap')
             d2 = probe.same_canon(written[ir_][2], probe.canon_info(r)) if ir_ < len(written) else []
             if d1 or d2:
                 ctx.violation('file:record-differs', 'a record read back differs from what the object interface returns / from what was written: %s %s' % (d1, d2),
